@@ -145,8 +145,8 @@ def run(chk, tier):
         oks = leaves_ok(t)
         res = ("vfld", ("await", req), "Ok", "0")
         last = call("core::iter::traits::iterator::Iterator::last", call("core::str::<impl str>::split", fld(sym.ELEM, "key"), C(ord("/"), "char")))
-        nm = call("alloc::string::ToString::to_string", sym.opt_match(last, lambda x: x, lambda: fld(sym.ELEM, "key")))
-        want = ("seq", fld(res, "objects"), (), adt(CI, "ChunkIdentifier", (("site", call("alloc::string::ToString::to_string", site)), ("volume", vol), ("name", nm), ("date_time", fld(sym.ELEM, "last_modified")))))
+        nm = sym.opt_match(last, lambda x: x, lambda: fld(sym.ELEM, "key"))
+        want = ("seq", fld(res, "objects"), (), adt(CI, "ChunkIdentifier", (("site", site), ("volume", vol), ("name", nm), ("date_time", fld(sym.ELEM, "last_modified")))))
         got = oks[0][1][3][0][1] if len(oks) == 1 else ("oks", len(oks))
         expect_c(chk, "R-WIRE", LC, sym.prune(got), sym.prune(want), w, "one identifier per object, in order: requested site and volume, the key's last segment, the object's last_modified", key="identifiers")
     # ---- real-time download
@@ -160,7 +160,7 @@ def run(chk, tier):
         expect_c(chk, "R-TEMPLATE", DC, aw[0][1] if len(aw) == 1 else ("awaits", len(aw)), req, w, "requests key {site}/{volume}/{name} from bucket %s" % REALTIME, key="request")
         res = ("vfld", ("await", req), "Ok", "0")
         ch = call(CHUNK_NEW, fld(res, "data"))
-        want = ok(("tuple", (adt(CI, "ChunkIdentifier", (("site", call("alloc::string::ToString::to_string", site)), ("volume", fld(cid, "volume")), ("name", call("alloc::string::ToString::to_string", fld(cid, "name"))),
+        want = ok(("tuple", (adt(CI, "ChunkIdentifier", (("site", site), ("volume", fld(cid, "volume")), ("name", fld(cid, "name")),
                                                        ("date_time", fld(fld(res, "metadata"), "last_modified")))), ("vfld", ch, "Ok", "0"))))
         oks = leaves_ok(t)
         expect_c(chk, "R-WIRE", DC, oks[0][1] if len(oks) == 1 else ("oks", len(oks)), want, w, "returns the identifier asked for stamped with the object's Last-Modified, and the chunk built from the downloaded bytes", key="payload")
@@ -211,7 +211,7 @@ def download_object(chk, prog, TGET):
             okd = len(by) == 1 and by[0][1][2] == (resp,) and strip_views(data) == ("vfld", by[0], "Ok", "0")
             chk.ob("R-WIRE", DO, okd, "the returned data are the response's bytes, unchanged", w, key="data")
             md = fld(d, "metadata")
-            chk.ob("R-WIRE", DO, canon_calls(fld(md, "key")) == canon_calls(call("alloc::string::ToString::to_string", key)), "the returned metadata names the requested key", w, key="metadata-key")
+            chk.ob("R-WIRE", DO, canon_calls(fld(md, "key")) == canon_calls(key), "the returned metadata names the requested key", w, key="metadata-key")
             lm = canon_calls(fld(md, "last_modified"))
             chk.ob("R-WIRE", DO, lm == canon_calls(call(GLM, call("reqwest::async_impl::response::Response::headers", resp))), "last_modified comes from this response's headers", w, key="metadata-last-modified")
         elif "S3ObjectNotFoundError" in repr(l):
